@@ -94,6 +94,14 @@ type Fix struct {
 	Big graph.IntGraph
 	// LoessF is ONE fitted function shared by all callers.
 	LoessF func(float64) float64
+	// LH is a LogHist with samples in several bins, under and over.
+	LH *stats.LogHist
+	// BigX holds 40000 values whose partial sums are inexact (every summation order gives
+	// another last bit); Snapshot covers it by a hash.
+	BigX []float64
+	// LightSnapshots makes Snapshot skip BigX (set by the interleaving pass, whose
+	// entries never touch it and which snapshots at every scheduling point).
+	LightSnapshots bool
 	// ST is a shared accumulator that calls only pass as the ARGUMENT of Combine (its
 	// receiver is always a private copy); it holds more samples than the receivers.
 	ST stats.StreamStats
@@ -108,6 +116,21 @@ func spare(x []float64) []float64 {
 		y[i] = -9999.5
 	}
 	return y[:len(x)]
+}
+
+var bigCache = map[int][]float64{}
+
+// bigBase returns the (cached, never handed out) 40000 values of variant v.
+func bigBase(v int) []float64 {
+	if b := bigCache[v]; b != nil {
+		return b
+	}
+	b := make([]float64, 40000)
+	for i := range b {
+		b[i] = 0.1*float64((i*7919)%1000) + 1e-3*float64(i%7) + float64(v)
+	}
+	bigCache[v] = b
+	return b
 }
 
 // NewFix builds fixture variant v (v = 0 is the main one; others permute and
@@ -139,6 +162,11 @@ func NewFix(v int) *Fix {
 	for _, x := range append(append([]float64{}, base2...), x1...) {
 		f.ST.Add(x)
 	}
+	f.LH = stats.NewLogHist(2, 2, 64)
+	for _, x := range []float64{0.5, 1, 1.5, 3, 3, 7, 20, 20, 21, 50, 63, 100, 1000} {
+		f.LH.Add(x * float64(1+v%2))
+	}
+	f.BigX = append([]float64{}, bigBase(v)...)
 	f.SW = stats.Sample{Xs: f.X1, Weights: f.W1}
 	sorted := append([]float64{}, x1...)
 	sort.Float64s(sorted)
@@ -208,6 +236,18 @@ func (f *Fix) Snapshot() []byte {
 	}
 	e.F(f.Lin.Min, f.Lin.Max, f.Log.Min, f.Log.Max).B(f.Lin.Clamp).B(f.Log.Clamp)
 	e.I(int(f.ST.Count)).F(f.ST.Total, f.ST.Min, f.ST.Max, f.ST.Mean(), f.ST.Variance())
+	lu, lb, lo := f.LH.Counts()
+	e.I(int(lu), int(lo))
+	for _, c := range lb {
+		e.I(int(c))
+	}
+	if !f.LightSnapshots {
+		h := uint64(14695981039346656037)
+		for _, x := range f.BigX {
+			h = (h ^ math.Float64bits(x)) * 1099511628211
+		}
+		e.I(len(f.BigX), cap(f.BigX), int(h>>1))
+	}
 	return e.Bytes()
 }
 
@@ -218,6 +258,10 @@ type Entry struct {
 	// Pkg is the library package the call lives in (for pair selection).
 	Pkg string
 }
+
+// Heavy names the entries with tens of thousands of scheduling points: they take part
+// in the purity, history and -race passes but not in the interleaving exploration.
+var Heavy = map[string]bool{"vec.Sum/Sample.Sum,Mean,Weight(40000 values)": true}
 
 func tt(e *Enc, r *stats.TTestResult, err error) []byte {
 	e.Err(err)
@@ -415,6 +459,24 @@ var Entries = []Entry{
 		s := graph.SubgraphRemove(f.G1, nil, []graph.Edge{{Node: 0, Edge: 2}, {Node: 0, Edge: 0}, {Node: 2, Edge: 0}, {Node: 2, Edge: 2}, {Node: 2, Edge: 1}, {Node: 4, Edge: 1}, {Node: 0, Edge: 2}})
 		return graphEnc(&Enc{}, s).Bytes()
 	}, "graph"},
+	{"stats.HistogramQuantile/IQR(LogHist)", func(f *Fix) []byte {
+		e := &Enc{}
+		for _, q := range []float64{0.1, 0.5, 0.9, 0.3} {
+			e.F(stats.HistogramQuantile(f.LH, q))
+		}
+		e.F(stats.HistogramIQR(f.LH))
+		u, b, o := f.LH.Counts()
+		e.I(int(u), int(o))
+		for _, c := range b {
+			e.I(int(c))
+		}
+		return e.Bytes()
+	}, "stats"},
+	{"vec.Sum/Sample.Sum,Mean,Weight(40000 values)", func(f *Fix) []byte {
+		s := stats.Sample{Xs: f.BigX}
+		w := stats.Sample{Xs: f.BigX[:20000], Weights: f.BigX[20000:]}
+		return (&Enc{}).F(vec.Sum(f.BigX), s.Sum(), s.Mean(), s.Weight(), w.Sum(), w.Mean(), w.Weight()).Bytes()
+	}, "vec"},
 	{"stats.StreamStats.Combine(arg)", func(f *Fix) []byte {
 		// private receivers (smaller, equal-sized and empty) fold the SHARED accumulator in:
 		// the argument is only read
